@@ -17,10 +17,11 @@ ATOM_TEXT = {
 
 
 class Frame:
-    def __init__(self, f):
+    def __init__(self, f, atom_text=None):
         self.f = f
         self.T = Atoms()
-        for v in set(ATOM_TEXT.values()):
+        self.atom_text = atom_text if atom_text is not None else ATOM_TEXT
+        for v in set(self.atom_text.values()):
             self.T.declare(v, 0, None)
         self.defs = {}
         for n in ast.walk(f.node):
@@ -31,8 +32,8 @@ class Frame:
         if depth > 8:
             return None
         t = U(e)
-        if t in ATOM_TEXT:
-            return A(ATOM_TEXT[t])
+        if t in self.atom_text:
+            return A(self.atom_text[t])
         if isinstance(e, ast.Constant) and isinstance(e.value, int):
             return C(e.value)
         if isinstance(e, ast.Name) and e.id in self.defs and len(self.defs[e.id]) == 1:
